@@ -87,7 +87,7 @@ pub fn judge(specs: &[Spec], case: &Case, l: &mut Local) {
             if let Ok(s) = guard(|| val.to_swift())
                 && let Some((_, body)) = tok::split_swift_string(&s)
             {
-                if matches!(&verdict, Verdict::Unspecified(u) if matches!(u.as_str(), "trailing-newline" | "decimals-vs-currency" | "dot-separator" | "integer-without-comma" | "zero-amount")) {
+                if matches!(&verdict, Verdict::Unspecified(u) if matches!(u.as_str(), "trailing-newline" | "decimals-vs-currency" | "dot-separator" | "integer-without-comma" | "zero-amount" | "field61-reference-with-slash")) {
                     // number spelling and precision are judged by C06
                     return;
                 }
